@@ -18,7 +18,7 @@ def run_matrix(name, h, s, r):
     core.import_impl()
     from ffpack import lsm, lcc, utils
     data = cyc.floats(h, s)
-    res_f = r * 2.0 ** -s
+    res_f = r * 2.0 ** -s if s >= 0 else r / 10 ** (-s)
     try:
         M, keys = getattr(lsm, cyc.MATRIX_API[name])(cyc.as_container(list(data), h, s), res_f)
     except ValueError as e:
@@ -39,7 +39,7 @@ def own_count(name, h, s, r):
     """the counter's own outputs on the digitised history (digitised by the implementation)"""
     core.import_impl()
     from ffpack import utils
-    d = utils.sequenceDigitization(cyc.floats(h, s), r * 2.0 ** -s)
+    d = utils.sequenceDigitization(cyc.floats(h, s), r * 2.0 ** -s if s >= 0 else r / 10 ** (-s))
     try:
         dh = [to_grid(v, s) for v in d]
     except OffGrid as e:
@@ -58,12 +58,20 @@ def explore(res, rng, n):
     for _ in range(n):
         h, s = core.gen_history(rng, maxlen=25, closed=(rng.random() < 0.4))
         r = rng.choice([1, 1, 2, 3, 4, 6, 8, 1 << s, 3 << s, 5])
+        if h[0] == h[-1] and len(h) > 2 and rng.random() < 0.4:
+            # ends that differ on the raw data but fall on the same digitised level
+            h = h[:-1] + [h[0] + rng.choice([1, -1]) * rng.randint(1, max(1, (r - 1) // 2))]
         cases.append((h, s, r))
+    # decimal grids: data k * 10^-d, resolution r * 10^-d (0.1, 0.3, 0.05 ... not binary fractions); predicates only
+    for _ in range(n // 3):
+        h, _s = core.gen_history(rng, maxlen=20, closed=(rng.random() < 0.4))
+        if max(abs(v) for v in h) < 4096:
+            cases.append((h, rng.choice([-1, -1, -2]), rng.choice([1, 1, 2, 3, 5, 7, 10])))
     cases = [([-11, -4, -12, 11], 2, 8), ([0, 1, 0], 0, 4)] + cases
     reqs, meta = [], []
     for h, s, r in cases:
         for name in cyc.NAMES:
-            if not cyc.valid_for(name, h):
+            if not (cyc.valid_for(name, h) or (name == 'repeat' and len(h) >= 2)):
                 continue
             out = run_matrix(name, h, s, r)
             res.evaluations += 1
@@ -82,8 +90,11 @@ def explore(res, rng, n):
                 res.stat('counter_rejects_digitised')
                 continue
             res.stat('empty_count' if not own['seq'] else 'nonempty_count')
-            reqs.append(f'matrix {name} {r} {enc_list(h)}')
-            meta.append(('corr', name, (h, s, r), out))
+            if s >= 0:
+                reqs.append(f'matrix {name} {r} {enc_list(h)}')
+                meta.append(('corr', name, (h, s, r), out))
+            else:
+                res.stat('decimal_grid_predicate_only')
             if 'error' in out:
                 res.failures.append({'signature': ('C07:empty-count-raises' if not own['seq'] else
                                                    f'C07:{name}:raises:{enc_list(h)}:{r}'),
